@@ -19,6 +19,13 @@ def nanMeanDiff (nt : Nat) (u : List (Option Rat)) : Option Rat :=
   | some a, some b => some (a - b)
   | _, _ => none
 
+/-- the `'t'` statistic of stratified_two_sample: `ttest_ind` of the non-NaN entries of the two samples (re-coded as
+    sign·t², see `tKey`); NaN when a sample has no responder -/
+def nanT (nt : Nat) (u : List (Option Rat)) : Option Rat :=
+  let a := (u.take nt).filterMap id
+  let b := (u.drop nt).filterMap id
+  if a.isEmpty || b.isEmpty then none else some (tKey a b)
+
 /-- `np.sum(dist >= t)` with NaNs on either side: never counted -/
 def cntGeN (dist : List (Option Rat)) (t : Option Rat) : Nat :=
   dist.countP (fun d => match d, t with
